@@ -796,6 +796,24 @@ fn parse_export_ext<'a>(input: &'a [u8], cache: &AtomCache) -> NomResult<'a, Own
     ))
 }
 
+/// `old_index` and `old_uniq` of NEW_FUN_EXT are u32 fields; values above `i32::MAX`
+/// arrive as SMALL_BIG_EXT (this is also what our encoder emits for them).
+fn bigint_to_u32(big: &BigInt) -> Option<u32> {
+    let significant = big
+        .digits
+        .iter()
+        .rposition(|&b| b != 0)
+        .map_or(0, |pos| pos + 1);
+    if significant > 4 || (big.sign.is_negative() && significant != 0) {
+        return None;
+    }
+    let mut value = 0u32;
+    for (i, &byte) in big.digits.iter().take(significant).enumerate() {
+        value |= (byte as u32) << (i * 8);
+    }
+    Some(value)
+}
+
 fn parse_new_fun_ext<'a>(input: &'a [u8], cache: &AtomCache) -> NomResult<'a, OwnedTerm> {
     let (input, _size) = be_u32(input)?;
     let (input, arity) = be_u8(input)?;
@@ -811,15 +829,19 @@ fn parse_new_fun_ext<'a>(input: &'a [u8], cache: &AtomCache) -> NomResult<'a, Ow
 
     let (input, old_index_term) = parse_term(input, cache)?;
     let old_index = match old_index_term {
-        OwnedTerm::Integer(i) if i >= 0 => i as u32,
-        _ => return Err(nom::Err::Failure(NomError::new(input, ErrorKind::Tag))),
-    };
+        OwnedTerm::Integer(i) => u32::try_from(i).ok(),
+        OwnedTerm::BigInt(ref big) => bigint_to_u32(big),
+        _ => None,
+    }
+    .ok_or_else(|| nom::Err::Failure(NomError::new(input, ErrorKind::Tag)))?;
 
     let (input, old_uniq_term) = parse_term(input, cache)?;
     let old_uniq = match old_uniq_term {
-        OwnedTerm::Integer(i) if i >= 0 => i as u32,
-        _ => return Err(nom::Err::Failure(NomError::new(input, ErrorKind::Tag))),
-    };
+        OwnedTerm::Integer(i) => u32::try_from(i).ok(),
+        OwnedTerm::BigInt(ref big) => bigint_to_u32(big),
+        _ => None,
+    }
+    .ok_or_else(|| nom::Err::Failure(NomError::new(input, ErrorKind::Tag)))?;
 
     let (input, pid_term) = parse_term(input, cache)?;
     let pid = match pid_term {
@@ -1265,15 +1287,19 @@ fn parse_new_fun_ext_borrowed<'a>(
 
     let (input, old_index_term) = parse_term_borrowed(input, original_len, ctx)?;
     let old_index = match old_index_term {
-        BorrowedTerm::Integer(i) if i >= 0 => i as u32,
-        _ => return Err(nom::Err::Failure(NomError::new(input, ErrorKind::Tag))),
-    };
+        BorrowedTerm::Integer(i) => u32::try_from(i).ok(),
+        BorrowedTerm::BigInt(ref big) => bigint_to_u32(big),
+        _ => None,
+    }
+    .ok_or_else(|| nom::Err::Failure(NomError::new(input, ErrorKind::Tag)))?;
 
     let (input, old_uniq_term) = parse_term_borrowed(input, original_len, ctx)?;
     let old_uniq = match old_uniq_term {
-        BorrowedTerm::Integer(i) if i >= 0 => i as u32,
-        _ => return Err(nom::Err::Failure(NomError::new(input, ErrorKind::Tag))),
-    };
+        BorrowedTerm::Integer(i) => u32::try_from(i).ok(),
+        BorrowedTerm::BigInt(ref big) => bigint_to_u32(big),
+        _ => None,
+    }
+    .ok_or_else(|| nom::Err::Failure(NomError::new(input, ErrorKind::Tag)))?;
 
     let (input, pid_term) = parse_term_borrowed(input, original_len, ctx)?;
     let pid = match pid_term {
